@@ -1,4 +1,4 @@
-HOOK_COMMITS = []
+HOOK_COMMITS = ['261c63d']
 NOTES = ('All checks regenerate their verified text from /repo\'s working tree on every run. exit 0 = all obligations discharged; '
          'exit 1 = VIOLATION (an obligation that verifies on the unchanged tree failed with a genuine verifier verdict); '
          'exit 2 = undecided (lost anchor / construct outside the subset / resource limit), never printed as a violation. '
